@@ -55,6 +55,7 @@ Universe ==
     [] P_MODE = "opt" -> OptProgs
     [] P_MODE = "over" -> OverProgs
     [] P_MODE = "bc" -> BcProgs
+    [] P_MODE = "same" -> SameProgs
     [] OTHER -> <<>>
 NU == Len(Universe)
 NSeeds == 64
@@ -108,6 +109,12 @@ StepsBounded ==
     \* every activation of a body executes each of its offsets at most once
     \A i, j \in 1..Len(o.trace) : i < j /\ o.trace[i].b = o.trace[j].b /\ o.trace[i].pc = o.trace[j].pc
         => \E k \in (i + 1)..j : o.trace[k].b = o.trace[i].b /\ o.trace[k].pc = 0
+
+\* C18: on every pair program the notions agree (all components of the result list are the same boolean)
+IsSameProg(e) == e.k = "list" /\ Len(e.els) >= 5 /\ e.els[1].k = "call" /\ e.els[1].f.k = "id" /\ e.els[1].f.n = N_eqeq
+FourNotionsAgree ==
+  IsCase /\ P_MODE = "same" /\ st.run.acc /\ st.run.r.st = "ok" /\ IsSameProg(st.e) =>
+     \A i \in 1..Len(st.run.r.v.els) : st.run.r.v.els[i].v = st.run.r.v.els[1].v
 
 \* the standard environment conforms
 EnvConforms == ConformingEnv(Env)
